@@ -29,7 +29,7 @@ func v1Eq(v *drive.V1, x jd1.JsonNode, b codec.Node, md []jd1.Metadata) bool {
 	ok := false
 	drive.Guard(func() drive.Res {
 		if x != nil {
-			ok = x.Equals(v.MustInject(b), md...)
+			ok = x.Equals(v.MustInjectB(b), md...)
 		}
 		return drive.Res{St: "ok"}
 	})
@@ -41,8 +41,9 @@ func driveV1(p *Plan, shard int, w *Writer, t *codec.Table) {
 	v := drive.NewV1(t)
 	forPairs(p, shard, func(id int, it *Item, ea, eb *Entry) {
 		a, b, o := ea.D, eb.D, it.Opts
+		v.NegZeroB = it.Mode == "negzero"
 		md := v.Metadata(o)
-		fresh := func() (jd1.JsonNode, jd1.JsonNode) { return v.MustInject(a), v.MustInject(b) }
+		fresh := func() (jd1.JsonNode, jd1.JsonNode) { return v.MustInject(a), v.MustInjectB(b) }
 		var d jd1.Diff
 		r := drive.Guard(func() drive.Res { x, y := fresh(); d = x.Diff(y, md...); return drive.Res{St: "ok"} })
 		w.Sess[shard]++
